@@ -2,6 +2,7 @@ package main
 
 import (
 	"fmt"
+	"reflect"
 	"strconv"
 	"strings"
 
@@ -33,6 +34,27 @@ func newQueue(f []string) world {
 }
 
 func (w *queueW) nontrivial() bool { return w.offers > w.cap }
+
+// cells prints the first (at most 64) cells of a buffer read by reflection.
+func cells(b reflect.Value) string {
+	n := b.Len()
+	if n > 64 {
+		n = 64
+	}
+	l := make([]int, n)
+	for i := range l {
+		l[i] = int(b.Index(i).Int())
+	}
+
+	return showInts(l)
+}
+
+// state: buffer cells, read and write position, size.
+func (w *queueW) state() string {
+	q := reflect.ValueOf(w.q).Elem()
+
+	return fmt.Sprintf("b%s r%d w%d n%d", cells(q.FieldByName("ringBuffer")), q.FieldByName("read").Int(), q.FieldByName("write").Int(), q.FieldByName("size").Int())
+}
 
 func (w *queueW) exec(r *hx.Run, f []string) (string, string) {
 	line := strings.Join(f, " ")
@@ -163,6 +185,13 @@ func newRing(f []string) world {
 
 func (w *ringW) nontrivial() bool { return w.read }
 
+// state: buffer cells, write position, size.
+func (w *ringW) state() string {
+	b := reflect.ValueOf(w.b).Elem()
+
+	return fmt.Sprintf("b%s p%d n%d", cells(b.FieldByName("buffer")), b.FieldByName("pos").Int(), b.FieldByName("size").Int())
+}
+
 func (w *ringW) exec(r *hx.Run, f []string) (string, string) {
 	line := strings.Join(f, " ")
 	switch f[0] {
@@ -185,6 +214,7 @@ func (w *ringW) exec(r *hx.Run, f []string) (string, string) {
 		return line, strconv.FormatBool(ok)
 	case "slice":
 		got := w.b.ToSlice()
+		defer scribble(got) // the caller owns the returned slice
 		if len(w.hist) > w.cap {
 			w.read = true // read after wrapping around
 		}
@@ -242,6 +272,16 @@ func newStack(f []string) world {
 }
 
 func (w *stackW) nontrivial() bool { return w.phase >= 3 }
+
+// state: the slice, bottom first.
+func (w *stackW) state() string {
+	v := reflect.ValueOf(w.s).Elem() // *simpleStack -> slice, *threadSafeStack -> struct
+	if v.Kind() == reflect.Struct {
+		v = v.FieldByName("stack").Elem()
+	}
+
+	return cells(v)
+}
 
 func (w *stackW) exec(r *hx.Run, f []string) (string, string) {
 	line := strings.Join(f, " ")
